@@ -111,6 +111,16 @@ class Function:
                 if n.get("k") == "ref" and n.get("d") in self.maskdefs:
                     n["maskdef"] = self.maskdefs[n["d"]]
 
+    def _forward_gotos_only(self):
+        labs = {}
+        for x in walk(self.body):
+            if x.get("k") == "label":
+                labs[x.get("n")] = x["i"]
+        for x in walk(self.body):
+            if x.get("k") == "goto" and not (x.get("n") in labs and labs[x["n"]] > x["i"]):
+                return False
+        return True
+
     def _find_flagdefs(self):
         """{local: condition} for a flag local that holds the truth of a condition: written exactly once, outside any loop,
         in a function without labels, from a side-effect-free comparison / logical expression or `c ? K1 : K0`; never
@@ -124,7 +134,11 @@ class Function:
         for x in walk(self.body):
             k = x.get("k")
             if k in ("label", "goto"):
-                return {}
+                # only forward jumps (the cleanup label at the end of the function): the text order the stability test below
+                # relies on is then still the execution order
+                if not self._forward_gotos_only():
+                    return {}
+                continue
             if k == "assign":
                 l = x["ch"][0]
                 while l is not None and l.get("k") in ("paren", "icast", "cast"):
